@@ -25,23 +25,25 @@ class AbsDevCost(BaseCost):
         FAULTS.tick("AbsDevCost._fit")
         X = as_2d_array(X)
         self._loc = self._check_param(self.param, X)
-        self.X_ = np.array(X, dtype=float)
+        # C-contiguous private copy: results do not depend on the memory layout of the
+        # array the caller happened to pass
+        self.X_ = np.array(X, dtype=float, order="C")
         return self
 
     def _evaluate_optim_param(self, starts, ends):
         FAULTS.tick("AbsDevCost._evaluate")
         out = np.zeros((len(starts), self.X_.shape[1]))
         for i, (s, e) in enumerate(zip(starts, ends)):
-            seg = self.X_[s:e]
-            out[i] = np.abs(seg - np.median(seg, axis=0)).sum(axis=0)
+            seg = np.ascontiguousarray(self.X_[s:e].T)
+            out[i] = np.abs(seg - np.median(seg, axis=1)[:, None]).sum(axis=1)
         return out
 
     def _evaluate_fixed_param(self, starts, ends):
         FAULTS.tick("AbsDevCost._evaluate")
         out = np.zeros((len(starts), self.X_.shape[1]))
         for i, (s, e) in enumerate(zip(starts, ends)):
-            seg = self.X_[s:e]
-            out[i] = np.abs(seg - self._loc).sum(axis=0)
+            seg = np.ascontiguousarray(self.X_[s:e].T)
+            out[i] = np.abs(seg - np.reshape(self._loc, (-1, 1))).sum(axis=1)
         return out
 
     @classmethod
